@@ -21,7 +21,7 @@ type muxDom struct {
 
 func init() { Register("mux", func() Domain { return &muxDom{muxes: map[int]*res.Mux{}} }) }
 
-var muxPatToks = []string{"a", "b", "c", "$x", "$y", "*", ">", "$x", "a", "b"}
+var muxPatToks = []string{"a", "b", "c", "$x", "$y", "*", ">", "$x", "a", "b", "x", "y", "$xy"} // literals spelled like tag names, a tag whose name extends another
 var muxNameToks = []string{"a", "b", "c", "x", "", "$x", ">", "*", "a", "b"}
 
 func randPattern(r *gen.R, maxn int) string {
